@@ -77,3 +77,30 @@ package tls
 //@   ensures[C20 roundtrip] out == value
 //@   loop 0 invariant[fold] 0 <= j && j <= len(mixed) && 0 <= cnt(row(mixed), off(mixed), j, prefix)
 //@   |   && combine(row(mixed), off(mixed), j, prefix) == value[0 : min(cnt(row(mixed), off(mixed), j, prefix)*m, len(value))]
+
+// ---------------------------------------------------------------- server.go (C05, C13, C14, C16)
+//
+// verifiedBy(r, req): record r's certificate key is an Ed25519 key under which
+// the request's nonce - and its client state, when present - is signed.
+
+//@ pred verifiedBy(r, req) := okPk(r.CertificatePublicKeyPkix) && isEd(r.CertificatePublicKeyPkix)
+//@   | && Verify(edpk(r.CertificatePublicKeyPkix), req.Nonce, req.NonceSignature)
+//@   | && (len(req.ClientState) != 0 ==> len(req.ClientStateSignature) != 0
+//@   |      && Verify(edpk(r.CertificatePublicKeyPkix), req.ClientState, req.ClientStateSignature))
+
+//@ func tls.verifyGenerateCertificatesRequest
+//@   requires nodeInfo != nil && req != nil
+//@   nopanic[C05,C14]
+//@   ensures[C05,C16 iff] err == nil <==> verifiedBy(nodeInfo, req)
+
+//@ func tls.GenerateServerCertificates
+//@   let byNodeId = req.NodeId != "" && implements(storage, "nodeenrollment.NodeIdLoader")
+//@   nopanic[C05,C14]
+//@   ensures[C05,C13 failclosed] err != nil ==> ret == nil
+//@   ensures[C05 verified] err == nil && !req.SkipVerification ==> len(req.Nonce) != 0 && len(req.NonceSignature) != 0
+//@   ensures[C05 bykeyid] err == nil && !req.SkipVerification && !byNodeId ==>
+//@   |   StHas("nodeinfo", keyId(req.CertificatePublicKeyPkix)) && verifiedBy(StGet("nodeinfo", keyId(req.CertificatePublicKeyPkix)), req)
+//@   loop 0 invariant[nodeloop] rangeindex + 1 >= 0
+//@   loop 1 unroll 2
+//@   ensures[C05 bynodeid] err == nil && !req.SkipVerification && byNodeId ==>
+//@   |   exists id String :: StHas("nodeinfo", id) && StGet("nodeinfo", id).NodeId == req.NodeId && verifiedBy(StGet("nodeinfo", id), req)
